@@ -5,3 +5,7 @@ import AGV.Props.C05
 #print axioms AGV.Props.C05.c05_fault_at_nullable_is_local
 #print axioms AGV.Props.C05.c05_errors_violated_by_resolverErrPropagates
 #print axioms AGV.Props.C05.c05_errors_repaired_on_witness
+#print axioms AGV.Props.C05.c05_errors_static_unqualified_false
+#print axioms AGV.Props.C05.c05_errors_static
+#print axioms AGV.Props.C05.c05_errors_all_schedules
+#print axioms AGV.Props.C05.c05_errors_static_example
